@@ -56,7 +56,10 @@ func ClassOfText(t string) string {
 	r, _ := utf8.DecodeRuneInString(t)
 	switch {
 	case r == '\'':
-		return "char_lit"
+		if validCharLit(t) {
+			return "char_lit"
+		}
+		return "ILLEGAL" // not a character literal of the documented lexical syntax
 	case r == '"' || r == '`':
 		return "string_lit"
 	case r == '!':
@@ -86,3 +89,46 @@ func (s *Spec) TermIDs(classes []string) []int {
 
 // Accepts reports whether the class sequence is a sentence of the spec grammar.
 func (s *Spec) Accepts(classes []string) bool { return s.E.Accepts(s.TermIDs(classes)) }
+
+// validCharLit: "'" ( unicode_char | \uhhhh | \Uhhhhhhhh | escaped_char | \ooo | \xhh ) "'"
+// as documented at the end of spec/gocc2.ebnf.
+func validCharLit(t string) bool {
+	if len(t) < 3 || t[0] != '\'' || t[len(t)-1] != '\'' {
+		return false
+	}
+	b := t[1 : len(t)-1]
+	if b[0] != '\\' {
+		r, w := utf8.DecodeRuneInString(b)
+		return w == len(b) && !(r == utf8.RuneError && w == 1) && r != '\'' && r != '\n'
+	}
+	if len(b) < 2 {
+		return false
+	}
+	isHex := func(s string) bool {
+		for _, c := range s {
+			if !(c >= '0' && c <= '9' || c >= 'a' && c <= 'f' || c >= 'A' && c <= 'F') {
+				return false
+			}
+		}
+		return true
+	}
+	switch b[1] {
+	case 'a', 'b', 'f', 'n', 'r', 't', 'v', '\\', '\'', '"':
+		return len(b) == 2
+	case 'x':
+		return len(b) == 4 && isHex(b[2:])
+	case 'u':
+		return len(b) == 6 && isHex(b[2:])
+	case 'U':
+		return len(b) == 10 && isHex(b[2:])
+	}
+	if len(b) != 4 {
+		return false
+	}
+	for _, c := range b[1:] {
+		if c < '0' || c > '7' {
+			return false
+		}
+	}
+	return true
+}
